@@ -14,7 +14,7 @@ LEVEL_TEXT = ('Bounded symbolic verification: every decoder entry point (UPDATE,
               'must return a result object on every path.')
 LEVEL_NOTE = ('Input length bounded (<= 5 octets quick, <= 8 thorough for leaf decoders; TLV bodies <= 16): inputs up to 4096 octets are '
               'outside the bound; the per-loop progress (every iteration consumes >= 1 octet) is what is decided. Error-message text cut.')
-LEVEL_ADDED = 'Also: sub-TLV carrying BGP-LS TLVs with 6..60 sibling sub-TLVs / chains nested that deep under a fuel linear in the number of TLVs.'
+LEVEL_ADDED = 'Also: sub-TLV carrying BGP-LS TLVs with 6..60 sibling sub-TLVs / chains nested that deep under a fuel linear in the number of TLVs. OPEN capability values made of a repeated 4-octet tuple.'
 TECHNIQUE = 'symbolic execution of each decoder on all-symbolic octets with loop-fuel unwinding assertions (CrossHair+z3), CPU-limited replay of non-termination'
 EXPLANATION = 'C11: all-symbolic short inputs per decoder under loop fuel.'
 BOUNDS = 'leaf decoders: every length 0..5 (quick) / 0..7 (thorough, less for the decoders whose path count explodes: see tmax); 57 BGP-LS TLV types x sub-length 0..16; Update.parse structured bodies'
